@@ -152,6 +152,11 @@ def suite_ops(ctx, case):
             except Exception as e:
                 ctx.pred('ops', sub, False, '%s raised %s: %s' % (op, type(e).__name__, str(e)[:120]), key='C06:raises:' + op.rstrip('01HP'))
                 return
+            # post-processing never touches the grids of the object's own Domain (every later transform uses them)
+            dm = p.sys.domain; dm0 = pristine.sys.domain
+            ctx.pred('ops', sub, bool(np.array_equal(dm.k, dm0.k) and np.array_equal(dm.r, dm0.r) and np.array_equal(dm.DST_II_coeffs, dm0.DST_II_coeffs)
+                                      and np.array_equal(dm.DST_III_coeffs, dm0.DST_III_coeffs)) and (dm.length, dm.dr, dm.dk) == (dm0.length, dm0.dr, dm0.dk),
+                     '%s changed the r / k grids or the transform coefficients of the solved object\'s Domain' % op, key='C06:corrupts-domain')
             ml = ctx.drv.ask(drv_line(op))
             if op.startswith('flip_'):
                 impl = 'ok ' + G.state_tok(p)
